@@ -175,7 +175,14 @@ func (ex *Exec) instr(fr *Frame, in ssa.Instruction, st *State, pc *Term) *Term 
 	case *ssa.Go:
 		ex.goStmt(fr, x, st, pc)
 	case *ssa.Send:
-		ex.ghostEvent(fr, "send", x.Pos(), st, pc)
+		// a send is a ghost event: the channel's send counter goes up by one (no blocking semantics)
+		ch := ex.term(fr, x.Chan)
+		g := Neq(ch, Null)
+		pc = And(pc, g)
+		n, srt := "ghost:sends", ArrSort(SRef, BV(64))
+		c := ex.get(st, n, srt)
+		ex.setAt(st, n, Store(c, ch, BVOp("bvadd", Select(c, ch), BVu(1, 64))), ch)
+		ex.unsupported("channel send modelled as a ghost counter (no blocking, no ordering)")
 	case *ssa.Select:
 		ex.unsupported("select statement abstracted (nondeterministic choice)")
 		fr.vals[x] = freshVal("select", x.Type())
